@@ -39,6 +39,10 @@ CLAIMS = {
          "Necessary conditions: for InMessage / OutMessage / ScrapeRequestInfoHashes no earlier untagged variant can accept a later variant's output (required keys, serde(default), tag enums and skip_serializing_if recovered from the derived Deserialize/Serialize bodies); Text and Binary frames go through the same deserialiser; the visitor rejects short input and chars > U+00FF and tests that the input is exhausted after 20 chars (this rule exposed a genuine defect, repaired by fix: commit da612f4); the encoder writes one char per byte into a 40-byte buffer.",
          "Trusted: serde derive semantics, serde_json / simd-json (string escaping, numbers). The SDP round trip itself is not decided.",
          "DESIGN.md section 2, C15"),
+ "C18": ("constant/layout relations: worst-case reply size as a linear form (rustc layouts, abstract output stream of the bencode writers) vs buffer constants; start-up validation extracted as a linear inequality and solved",
+         "Necessary and, for the listed reply kinds, sufficient size conditions: for every (tracker, back end, reply kind) the worst-case size a + b*limit derived from the code is compared with the buffer constant; a limit not bounded by its type must be bounded by a validation that dominates the first thread spawn and whose result is propagated - its inequality is extracted and solved (udp: 454 / 112 peers, 170 torrents; http: 443 peers); the http scrape count is bounded by what fits a request buffer; defaults fit. The rule exposed six genuine defects, repaired by fix: commits ffb3202 and 23f73cc; the io_uring request buffer is a recorded known finding.",
+         "Not decided: OS-level short writes (outside the property's quantifier); itoa digit bound and the 31-byte minimum per info_hash parameter are stated assumptions.",
+         "DESIGN.md section 2, C18"),
 }
 
 PENDING_REASON = "check under construction in this build phase (static rules designed in DESIGN.md section 2); not claimed until its rule set is validated both ways"
